@@ -4,7 +4,7 @@ from .. import monitor, mon_alg, w_alg
 LEVEL = 'exploration'
 SHARDS = {'quick': 2, 'thorough': 16}
 BUDGET = {'quick': 60, 'thorough': 600}
-RULE = ('merge() over the same pair/triple spaces as C01 with random draws re-derived into name-aligned tuples; '
+RULE = ('(the fold law compares how often a callable is listed, too; the round-trip law is evaluated with the real ==) merge() over the same pair/triple spaces as C01 with random draws re-derived into name-aligned tuples; '
         'monitor: on name-aligned inputs acc(result) == intersection of acc(inputs) on non-colliding shapes, raise <=> '
         'empty intersection; laws merge(s)==s, merge(s,s)==s, bare (*args, **kwargs) neutral on both sides, '
         'apply_params(s,*sort_params(s))==s (every sort_params call is completed into a round trip by the monitor), '
